@@ -6,6 +6,7 @@ import Lean.Data.Json
 import BiscuitModel.Model.Intern
 import BiscuitModel.Model.Limits
 import BiscuitModel.Model.Wire
+import BiscuitModel.Model.TokenSyms
 open Lean
 namespace Biscuit.Codec
 
